@@ -468,7 +468,11 @@ fn run_single_program(
             }
 
             if cmd.is_builtin() {
-                if let Some(status) = try_run_builtin_in_subprocess(sh, cl, idx_cmd, capture) {
+                // in this child descriptors 1 and 2 already are the capture
+                // pipes or the redirection targets: the builtin must print on
+                // them (capture = false); text kept in the child's own
+                // CommandResult would be lost when the child exits.
+                if let Some(status) = try_run_builtin_in_subprocess(sh, cl, idx_cmd, false) {
                     process::exit(status);
                 }
             }
